@@ -86,6 +86,29 @@ def judge(spec, obs):
                 return f"client {cid}, call #{k} {call['method']}{tuple(call['args'])}: got {r[:3]}, its own outcome is {exp}"
             if call["async"] and r[-1] < call["args"][1] - 0.02:
                 return f"client {cid}, call #{k} {call['method']}: returned after {r[-1]} s, before its operation completed ({call['args'][1]} s)"
+        if spec.get("kind") == "realops":
+            import clientops
+            sp = clientops.Spec(8, 8, False, False)
+            want, durations = [], []
+            for call in c["calls"]:
+                if call["method"] == "pause":
+                    durations.append(call["args"][0])
+                    continue
+                before = len(want)
+                want += sp.expected((call["method"], *call["args"])) or []
+                durations.append(0.2 * (len(want) - before - 1) if call["method"] == "mouseDrag" else 0)
+            wire = bytes.fromhex(obs["received"].get(cid, ""))[14:]
+            msgs = clientops.parse_c2s(wire)
+            got = None if msgs is None else [m for m in msgs if m[0] in ("KeyEvent", "PointerEvent")]
+            if got != want:
+                k = next((i for i, (a, b) in enumerate(zip(got or [], want)) if a != b), min(len(got or []), len(want)))
+                return (f"client {cid}: the server received {len(got or [])} key/pointer messages, the calls made are {len(want)}; first difference at "
+                        f"#{k}: received {(got or [None] * (k + 1))[k] if got and k < len(got) else None}, call order says {want[k] if k < len(want) else None} "
+                        f"(calls: {[cc['method'] for cc in c['calls']]})")
+            for k, (call, r, dur) in enumerate(zip(c["calls"], res, durations)):
+                if r[-1] < dur - 0.05:
+                    return (f"client {cid}, call #{k} {call['method']}{tuple(call['args'])}: returned after {r[-1]} s, its operation takes {dur:.1f} s "
+                            f"(a call returns only after its own operation has completed)")
         if c["server"] in ("ok", "slow", "frames"):
             # executed on the reactor one at a time, in call order
             log = [(w, n) for cc, w, n in obs["log"] if str(cc) == cid]
@@ -103,7 +126,7 @@ def run(tier, seed, model):
     n = 14 if tier == "quick" else 120
     specs = []
     for i in range(n):
-        kinds = ["one", "two", "refuse", "needpw", "mixed", "burst", "frames", "unixstale", "straddle", "two", "one", "burst", "frames"]
+        kinds = ["one", "two", "refuse", "needpw", "mixed", "burst", "frames", "unixstale", "straddle", "realops", "two", "one", "burst", "frames"]
         kind = kinds[i] if i < len(kinds) else rng.choice(kinds)
         clients = []
         if kind == "burst":
@@ -115,6 +138,32 @@ def run(tier, seed, model):
         elif kind == "two":
             clients.append({"id": 1, "server": rng.choice(["ok", "slow"]), "calls": gen_calls(rng, 100, rng.randrange(3, 10))})
             clients.append({"id": 2, "server": rng.choice(["ok", "slow"]), "calls": gen_calls(rng, 500, rng.randrange(3, 10))})
+        elif kind == "realops":
+            # the library's own operations (some of them asynchronous: drag, pause), judged at the server: the bytes of call k
+            # are all on the wire before those of call k+1
+            calls = []
+            pos = (0, 0)
+            for _ in range(rng.randrange(4, 9)):
+                r_ = rng.random()
+                if r_ < 0.3:
+                    x, y = rng.randrange(0, 40), rng.randrange(0, 40)
+                    if rng.random() < 0.5:
+                        x, y = min(40, pos[0] + rng.randrange(0, 5)), pos[1]
+                    calls.append({"method": "mouseDrag", "args": [x, y, rng.choice([1, 2])], "sleep": 0, "exp": ["ret", "obj"], "async": 0})
+                    pos = (x, y)
+                elif r_ < 0.5:
+                    calls.append({"method": rng.choice(["mouseDown", "mouseUp", "mousePress"]), "args": [rng.randrange(1, 4)], "sleep": 0, "exp": ["ret", "obj"], "async": 0})
+                elif r_ < 0.7:
+                    pos = (rng.randrange(0, 40), rng.randrange(0, 40))
+                    calls.append({"method": "mouseMove", "args": list(pos), "sleep": 0, "exp": ["ret", "obj"], "async": 0})
+                elif r_ < 0.85:
+                    calls.append({"method": "keyPress", "args": [rng.choice(["a", "b", "enter", "ctrl-c"])], "sleep": 0, "exp": ["ret", "obj"], "async": 0})
+                else:
+                    calls.append({"method": "pause", "args": [rng.choice([0.1, 0.3])], "sleep": 0, "exp": ["ret", "obj"], "async": 0})
+            if not any(cc["method"] == "mouseDrag" and cc["args"][:2] != [0, 0] for cc in calls):
+                calls.insert(1, {"method": "mouseDrag", "args": [3, 0, 1], "sleep": 0, "exp": ["ret", "obj"], "async": 0})
+            calls.append({"method": "keyPress", "args": ["z"], "sleep": 0, "exp": ["ret", "obj"], "async": 0})
+            clients.append({"id": 1, "server": "ok", "calls": calls})
         elif kind == "straddle":
             # api.connect(timeout=T) bounds each CALL: an operation in flight T seconds after the connection was made is not
             # affected by that instant
@@ -164,7 +213,7 @@ def run(tier, seed, model):
             continue
         # the model on a straightforward schedule of the same calls: same delivered outcomes
         for c in spec["clients"]:
-            if c["server"] == "frames":
+            if c["server"] == "frames" or spec["kind"] == "realops":
                 continue
             mcalls = [call for call in c["calls"] if call["method"] != "disconnect"]
             ops = [[call["async"], (call["exp"][1] if call["exp"][1] is not None else 0) * (1 if call["exp"][0] == "ret" else -1)]
